@@ -102,12 +102,14 @@ package modbus
 //@   requires[C14] muState == 2
 //@   safety[C08,C07,C19]
 //@   modifies[C08] nothing
+//@   modifies streamPos, reads, lastN, lastErr, lastBuf, hookReads, writes, bwCount, bwBuf, ctxErr, faults, flushes
 //@   fresh[C07] res
 //@   ensures[C07,C12,C19] err == nil ==> len(res) == streamPos - old(streamPos) && 1 <= len(res) && len(res) <= 260 && forall k in 0..len(res) :: res[k] == stream[old(streamPos) + k]
-//@   ensures[C07] err == nil ==> len(res) >= expectedLen || errIs(lastErr, io.EOF)
+//@   ensures[C07] err == nil ==> len(res) >= expectedLen || (errIs(lastErr, io.EOF) && faults > old(faults))
+//@   ensures[C07] faults >= old(faults) && streamPos <= streamLen && streamPos >= old(streamPos)
 //@   ensures[C08] err != nil ==> isnil(res)
 //@   ensures[C08.classify] err != nil ==> dyntype(err) == *ClientError || err == ctxErr
-//@   ensures[C07.progress] err != nil ==> faults > old(faults) || streamPos - old(streamPos) > 260 || streamPos == old(streamPos) || (dyntype(err) == *ClientError && (dyntype(err.(*ClientError).Err) == *packet.ErrorResponseTCP || dyntype(err.(*ClientError).Err) == *packet.ErrorResponseRTU))
+//@   ensures[C07.progress] err != nil ==> faults > old(faults) || streamPos - old(streamPos) > 260 || (streamPos == old(streamPos) && expectedLen <= 0) || (dyntype(err) == *ClientError && ((tcpClient(c) && dyntype(err.(*ClientError).Err) == *packet.ErrorResponseTCP && streamPos - old(streamPos) == 9 && stream[old(streamPos)+7] & 128 != 0) || (rtuClient(c) && dyntype(err.(*ClientError).Err) == *packet.ErrorResponseRTU && streamPos - old(streamPos) == 5 && stream[old(streamPos)+1] & 128 != 0)))
 //@   ensures[C07.exception] tcpClient(c) && streamLen - old(streamPos) == 9 && stream[old(streamPos)+7] & 128 != 0 && expectedLen > 9 && faults == old(faults) ==> err != nil && dyntype(err) == *ClientError && dyntype(err.(*ClientError).Err) == *packet.ErrorResponseTCP && err.(*ClientError).Err.(*packet.ErrorResponseTCP).UnitID == stream[old(streamPos)+6] && err.(*ClientError).Err.(*packet.ErrorResponseTCP).Function == stream[old(streamPos)+7] - 128 && err.(*ClientError).Err.(*packet.ErrorResponseTCP).Code == stream[old(streamPos)+8]
 //@   ensures[C07.exception] rtuClient(c) && streamLen - old(streamPos) == 5 && stream[old(streamPos)+1] & 128 != 0 && crcTrailer(stream[old(streamPos):old(streamPos)+5], 5) && expectedLen > 5 && faults == old(faults) ==> err != nil && dyntype(err) == *ClientError && dyntype(err.(*ClientError).Err) == *packet.ErrorResponseRTU && err.(*ClientError).Err.(*packet.ErrorResponseRTU).UnitID == stream[old(streamPos)] && err.(*ClientError).Err.(*packet.ErrorResponseRTU).Function == stream[old(streamPos)+1] - 128 && err.(*ClientError).Err.(*packet.ErrorResponseRTU).Code == stream[old(streamPos)+2]
 //@   ensures[C19] c.hooks != nil ==> hookReads - old(hookReads) == reads - old(reads)
@@ -125,6 +127,7 @@ package modbus
 //@     invariant writes == old(writes) + 1 && bwCount == old(bwCount) + ite(c.hooks != nil, int(1), int(0)) && bpCount == old(bpCount) && parseCount == old(parseCount)
 
 //@ func (c *Client) Do(ctx context.Context, req packet.Request) (resp packet.Response, err error)
+//@   inline
 //@   requires c != nil && validClient(c) && ctx != nil
 //@   requires reads == hookReads && bwCount == writes && bpCount == parseCount && ghostsSane()
 //@   requires[C14] muState == 0
@@ -132,6 +135,7 @@ package modbus
 //@   lockdiscipline[C14]
 //@   guarded[C14] conn, address, hooks
 //@   modifies[C08] nothing
+//@   modifies streamPos, reads, lastN, lastErr, lastBuf, hookReads, writes, bwCount, bwBuf, ctxErr, faults, flushes, bpCount, bpBuf, parseCount, lastDoRes
 //@   ensures[C08] err != nil ==> nilish(resp)
 //@   ensures[C08] req == nil ==> err != nil && writes == old(writes) && reads == old(reads)
 //@   ensures[C08] req != nil && c.conn == nil ==> err != nil && dyntype(err) == *ClientError && err.(*ClientError).Err == ErrClientNotConnected.Err && writes == old(writes) && reads == old(reads)
@@ -229,6 +233,7 @@ package modbus
 //@   requires[C14] muState == 2
 //@   safety[C08]
 //@   modifies[C08] nothing
+//@   modifies faults, flushes
 //@   ensures[C08,C12] dyntype(err) != *packet.ErrorResponseRTU && dyntype(err) != *ClientError
 //@   ensures[C07] faults >= old(faults) && (err != nil ==> faults > old(faults))
 //@   ensures[C14] muState == old(muState)
@@ -240,12 +245,14 @@ package modbus
 //@   requires[C14] muState == 2
 //@   safety[C08,C07,C19]
 //@   modifies[C08] nothing
+//@   modifies streamPos, reads, lastN, lastErr, lastBuf, hookReads, writes, bwCount, bwBuf, ctxErr, faults, flushes
 //@   fresh[C07] res
 //@   ensures[C07,C12,C19] err == nil ==> len(res) == streamPos - old(streamPos) && 1 <= len(res) && len(res) <= 256 && forall k in 0..len(res) :: res[k] == stream[old(streamPos) + k]
 //@   ensures[C07] err == nil ==> len(res) >= expectedLen
+//@   ensures[C07] faults >= old(faults) && streamPos <= streamLen && streamPos >= old(streamPos)
 //@   ensures[C08] err != nil ==> isnil(res)
 //@   ensures[C08.classify] err != nil ==> dyntype(err) == *ClientError || err == ctxErr
-//@   ensures[C07.progress] err != nil ==> faults > old(faults) || streamPos - old(streamPos) > 256 || streamPos == old(streamPos) || (dyntype(err) == *ClientError && dyntype(err.(*ClientError).Err) == *packet.ErrorResponseRTU)
+//@   ensures[C07.progress] err != nil ==> faults > old(faults) || streamPos - old(streamPos) > 256 || (streamPos == old(streamPos) && expectedLen <= 0) || (dyntype(err) == *ClientError && dyntype(err.(*ClientError).Err) == *packet.ErrorResponseRTU && streamPos - old(streamPos) == 5 && stream[old(streamPos)+1] & 128 != 0)
 //@   ensures[C07.exception] streamLen - old(streamPos) == 5 && stream[old(streamPos)+1] & 128 != 0 && crcTrailer(stream[old(streamPos):old(streamPos)+5], 5) && expectedLen > 5 && faults == old(faults) ==> err != nil && dyntype(err) == *ClientError && dyntype(err.(*ClientError).Err) == *packet.ErrorResponseRTU && err.(*ClientError).Err.(*packet.ErrorResponseRTU).UnitID == stream[old(streamPos)] && err.(*ClientError).Err.(*packet.ErrorResponseRTU).Function == stream[old(streamPos)+1] - 128 && err.(*ClientError).Err.(*packet.ErrorResponseRTU).Code == stream[old(streamPos)+2]
 //@   ensures[C19] c.hooks != nil ==> hookReads - old(hookReads) == reads - old(reads)
 //@   ensures[C19] c.hooks != nil && writes > old(writes) ==> bwCount - old(bwCount) == writes - old(writes)
@@ -263,6 +270,7 @@ package modbus
 //@     invariant muState == old(muState)
 
 //@ func (c *SerialClient) Do(ctx context.Context, req packet.Request) (resp packet.Response, err error)
+//@   inline
 //@   requires c != nil && validSerial(c) && ctx != nil && (c.isFlusher ==> c.serialPort != nil && implements(c.serialPort, Flusher))
 //@   requires reads == hookReads && bwCount == writes && bpCount == parseCount && ghostsSane()
 //@   requires[C14] muState == 0
@@ -270,6 +278,7 @@ package modbus
 //@   lockdiscipline[C14]
 //@   guarded[C14] serialPort, hooks
 //@   modifies[C08] nothing
+//@   modifies streamPos, reads, lastN, lastErr, lastBuf, hookReads, writes, bwCount, bwBuf, ctxErr, faults, flushes, bpCount, bpBuf, parseCount, lastDoRes
 //@   ensures[C08] err != nil ==> nilish(resp)
 //@   ensures[C08] req == nil ==> err != nil && writes == old(writes) && reads == old(reads)
 //@   ensures[C08] req != nil && c.serialPort == nil ==> err != nil && writes == old(writes) && reads == old(reads)
